@@ -4,4 +4,5 @@ CONSTANT Flips = FALSE
 INVARIANT RoundTrip
 INVARIANT Total
 INVARIANT EmitCut
+INVARIANT EmitRt
 CHECK_DEADLOCK FALSE
